@@ -2,7 +2,7 @@
    The extracted OCaml driver and the in-Coq replays both call only this. *)
 From Coq Require Import List ZArith NArith Bool.
 From AG Require Import Base.Val Base.Sort Str.MetaVar Str.AnB Str.Substring
-  Rewrite.Indent Rewrite.Template Tree.Tree Tree.Wf Match.MatchNode Match.Prefilter Rule.Rule Rule.Kinds Rule.Traversal Rule.Scan Rule.Eval Rule.Sem Rewrite.Splice Rewrite.EditDoc Front.JsonPrint Front.Lsp Front.Select Front.Load Str.Case.
+  Rewrite.Indent Rewrite.Template Tree.Tree Tree.Wf Match.MatchNode Match.Prefilter Rule.Rule Rule.Kinds Rule.Traversal Rule.Scan Rule.Eval Rule.Sem Rewrite.Splice Rewrite.EditDoc Front.JsonPrint Front.Lsp Front.Select Front.Load Str.Case Front.Apply.
 Import ListNotations.
 Local Open Scope Z_scope.
 
@@ -267,6 +267,30 @@ Definition case_split (v : val) : val :=
   | None => VL [VZ 1]
   end.
 
+(* 52: ((single (name text) ...) (multi (name text) ...) ((key source (opt startChar) (opt endChar)) ...))
+       -> (0 ((key value) ... by key)) : the transformed variables after the pass over the loader's order, every
+       transformation a `substring` (texts are code-point strings); (1) when the transformations are cyclic *)
+Definition case_apply (v : val) : val :=
+  let caps (x : val) := gList (fun p => (gS (gNth 0 p), gS (gNth 1 p))) x in
+  let e0 := {| a_single := caps (gNth 0 v); a_multi := caps (gNth 1 v); a_trans := [] |} in
+  let raw := gL (gNth 2 v) in
+  let ts := map (fun t => (gS (gNth 0 t), {| tf_source := gS (gNth 1 t); tf_rewriters := [] |})) raw in
+  let params (key : str) :=
+    match find (fun t => str_eqb (gS (gNth 0 t)) key) raw with
+    | Some t => (gOpt gZ (gNth 2 t), gOpt gZ (gNth 3 t))
+    | None => (None, None)
+    end in
+  let compute (key : str) (_ : transf) (o : option str) : str :=
+    match o with
+    | Some s => let '(a, b) := params key in substring s a b
+    | None => []
+    end in
+  match get_order (trans_depmap ts) with
+  | OrderOk ord =>
+      VL [VZ 0; VL (map (fun p => VL [VS (fst p); VS (snd p)]) (sort_kv (a_trans (apply_all compute ts ord e0))))]
+  | _ => VL [VZ 1]
+  end.
+
 Definition run_case (fid : Z) (v : val) : val :=
   match fid with
   | 1 => v_metavar (extract_meta_var (gN (gNth 0 v)) (gS (gNth 1 v)))
@@ -300,6 +324,7 @@ Definition run_case (fid : Z) (v : val) : val :=
   | 49 => case_topo v
   | 50 => case_globals v
   | 51 => case_split v
+  | 52 => case_apply v
   (* 41: (src start end before after) -> display_context: (leading-start trailing-end lines-above) *)
   | 41 => let d := display_context (gS (gNth 0 v)) (gNat (gNth 1 v)) (gNat (gNth 2 v)) (gNat (gNth 3 v)) (gNat (gNth 4 v)) in
           VL [vNat (dc_lead d); vNat (dc_trail d); vNat (dc_offset d)]
